@@ -21,6 +21,17 @@ Driver family `db` (C12).  Stateful case lines; every line of a case carries the
   `FindMissingMessages` with `RpcBackfill`: `script` = what the fake nodes answer per sequence (served bytes / absent / failed; anything
   not listed is absent), `fwd` = what arrived on the processor's inbound channel, `stray` = requests for anything but a scripted path.
 
+* `reopen <cid>` — the harness closed the store cleanly and opened the directory again (a restart between two calls): no effect.
+* a `get` / `gap` / `gov` / `rget` / `rbatch` / `rgov` line may end in `down=1`: the harness kept the store handle UNAVAILABLE for the
+  duration of that call (closed - as `runNode`'s deferred `db.Close()` does while the gRPC server still accepts calls - and reopened
+  afterwards), so every read fails with an error that is not "not found".  There an error is accepted (it makes no statement; model:
+  `rpcGetSignedVAAAt` / `rpcNonGovBatchAt` / `rpcGovBatchAt` with nothing readable, theorem `C12.rpc_batch_at_ok_exact`), while an
+  answer that IS given is judged exactly like any other: bytes must be the stored ones, "not found" only for what was never stored,
+  an OK batch / gap report must be the stream's (`rpc-batch-not-stream-exact`, `rpc-batch-lost`, `rpc-get-lost`, …).
+* a stored (acknowledged) identifier whose lookup ends with an ERROR on a readable store is `rpc-get-error` and also `rpc-get-lost`
+  (`get-lost` for the local lookup); a well-formed batch that ends with an error while it names stored sequences is `rpc-batch-error`
+  and also `rpc-batch-lost` - "that VAA is returned by every later lookup" does not care which status hides it (C16 owns the `-lost` keys).
+
 tags: `noid badhex badlen batchsize notfound internal` (gRPC code + message, see `Whv.Db.RpcErr`), anything else is reported as is.
 
 Clauses on error paths in the middle of a scan / a batch (each judged on the implementation's own reply):
@@ -108,6 +119,8 @@ structure St where
   nGov : Nat := 0
   nRpc : Nat := 0
   nErrBranch : Nat := 0
+  nDown : Nat := 0                -- calls made while the harness kept the store handle unavailable, answered with an error
+  nDownAnswered : Nat := 0        -- ... answered (bytes / not found / a report) and judged
 
 /-- every stored value of stream `s` decodes (the domain in which `FindEmitterSequenceGap` is specified) -/
 def streamDecodable (h : List Put) (s : Stream) : Bool :=
@@ -121,21 +134,31 @@ def lookAlike (h : List Put) (s : Stream) : Bool :=
   h.any fun p => p.1.emitterChain == s.ec && p.1.emitter == s.addr && p.1.targetChain != s.tc &&
     (decChars s.tc).isPrefixOf (decChars p.1.targetChain)
 
-/-- Spec verdict for a lookup answer (`res`, `val`) of identifier `id`; `pre` = "" or "rpc-". -/
-def judgeGet (pre : String) (cid : String) (h : List Put) (id : VaaId) (res : String) (val : Option Bytes) : Option String :=
+/-- Spec verdicts for a lookup answer (`res`, `val`) of identifier `id`; `pre` = "" or "rpc-".  `down`: the harness made the
+store handle unavailable for the duration of the call - an error is then no verdict (it makes no statement), but an answer that IS
+given (bytes, "not found") is judged like any other.  A stored identifier whose lookup ends with an error on a readable store is
+both `get-error` and - the acknowledged VAA is not returned - `get-lost`. -/
+def judgeGet (pre : String) (cid : String) (h : List Put) (id : VaaId) (res : String) (val : Option Bytes) (down : Bool := false) : List String :=
   let want := lastStored h id
+  let dn := if down then " (the store handle was unavailable during the call: an error would have been acceptable, a wrong statement is not)" else ""
   match res, val, want with
-  | "ok", some b, none => some s!"spec {cid} {pre}get-phantom lookup of never-stored {shortId id} returned {b.length} bytes"
+  | "ok", some b, none => [s!"spec {cid} {pre}get-phantom lookup of never-stored {shortId id} returned {b.length} bytes{dn}"]
   | "ok", some b, some w =>
-    if b = w then none else some s!"spec {cid} {pre}get-wrong-bytes lookup of {shortId id} returned {b.length} bytes that differ from the {w.length} bytes stored last under it"
-  | "notfound", _, some w => some s!"spec {cid} {pre}get-lost {shortId id} was stored ({w.length} bytes) but lookup says not found"
-  | "notfound", _, none => none
-  | r, _, _ => some s!"spec {cid} {pre}get-error lookup of {shortId id} ended with {r}"
+    if b = w then [] else [s!"spec {cid} {pre}get-wrong-bytes lookup of {shortId id} returned {b.length} bytes that differ from the {w.length} bytes stored last under it{dn}"]
+  | "notfound", _, some w => [s!"spec {cid} {pre}get-lost {shortId id} was stored ({w.length} bytes) but lookup says not found{dn}"]
+  | "notfound", _, none => []
+  | r, _, w =>
+    if down && (r = "err" || r = "internal") then [] else
+    s!"spec {cid} {pre}get-error lookup of {shortId id} ended with {r}" ::
+      (match w with
+       | some w => [s!"spec {cid} {pre}get-lost {shortId id} was stored ({w.length} bytes, acknowledged) but the lookup does not return it: it ended with {r}"]
+       | none => [])
 
 def stepLine (st : St) (line : String) : St × List String :=
   let fs := fields line
   match fs with
   | ["reset", _] => ({ st with store := [], hist := [], outOfDomain := false, govEc := 0, govAddr := [] }, [])
+  | ["reopen", _] => (st, [])       -- the harness closed and reopened the store directory (a restart): nothing may change
   | "srv" :: _ :: rest =>
     match kvNat rest "govec", kvHex rest "govaddr" with
     | some e, some a => ({ st with govEc := e, govAddr := a }, [])
@@ -165,10 +188,11 @@ def stepLine (st : St) (line : String) : St × List String :=
     | some id, some res =>
       let st := { st with n := st.n + 1 }
       let val := kvHex rest "val"
-      let sp := if st.outOfDomain then none else judgeGet "" cid st.hist id res val
-      match sp with
-      | some s => (st, [s])
-      | none =>
+      let down := kvNat rest "down" == some 1
+      let sp := if st.outOfDomain then [] else judgeGet "" cid st.hist id res val down
+      if !sp.isEmpty then (st, sp)
+      else if down && res = "err" then ({ st with nDown := st.nDown + 1 }, [s!"ok {cid}"])
+      else
         match getSignedVAABytes st.store id, res, val with
         | none, "notfound", _ => ({ st with nGetMiss := st.nGetMiss + 1 }, [s!"ok {cid}"])
         | some b, "ok", some b' =>
@@ -189,6 +213,8 @@ def stepLine (st : St) (line : String) : St × List String :=
       match impl with
       | none => (st, [s!"spec {cid} gap-error gap query for {shortStream s} ended with {res}"])
       | some r =>
+        let down := kvNat rest "down" == some 1
+        if down && r = .err then ({ st with nDown := st.nDown + 1 }, [s!"ok {cid}"]) else
         let dec := streamDecodable st.hist s
         let inDom := !st.outOfDomain && dec
         let want := specGap (streamSeqs st.hist s)
@@ -221,6 +247,7 @@ def stepLine (st : St) (line : String) : St × List String :=
           else match m with
             | some l => if l = out then ({ st with nGov := st.nGov + 1 }, [s!"ok {cid}"]) else (st, [s!"diff {cid} gov: model {showGov l} impl {showGov out}"])
             | none => (st, [s!"diff {cid} gov: model returns an error, impl ok"])
+      else if res = "err" && kvNat rest "down" == some 1 then ({ st with nDown := st.nDown + 1 }, [s!"ok {cid}"])
       else if res = "err" then
         if !st.outOfDomain then (st, [s!"spec {cid} gov-error governance batch returned an error on a store written only by StoreSignedVAA"])
         else match m with
@@ -246,17 +273,31 @@ def stepLine (st : St) (line : String) : St × List String :=
       let st := { st with n := st.n + 1, nRpc := st.nRpc + 1 }
       let addrC := bytesToChars addr
       let val := kvHex rest "val"
+      let down := kvNat rest "down" == some 1
       let inDom := !st.outOfDomain && hasid = 1 && 0 ≤ ec && ec < 65536 && 0 ≤ tc && tc < 65536 &&
         (match decodeEmitterAddress addrC with | .ok _ => true | .error _ => false)
-      let sp := if inDom then
+      let sp : List String := if inDom then
           match decodeEmitterAddress addrC with
-          | .ok a => judgeGet "rpc-" cid st.hist ⟨ec.toNat, a, tc.toNat, seq⟩ res val
-          | .error _ => none
-        else none
-      match sp with
-      | some s => (st, [s])
-      | none =>
-        match rpcGetSignedVAA st.store (hasid = 1) ec addrC tc seq, res, val with
+          | .ok a => judgeGet "rpc-" cid st.hist ⟨ec.toNat, a, tc.toNat, seq⟩ res val down
+          | .error _ => []
+        else []
+      if !sp.isEmpty then (st, sp)
+      else
+        -- the tie: with the handle unavailable the pinned handler answers what `rpcGetSignedVAAAt (fun _ => false)` says (the
+        -- request checks first, then Internal); an answer that was judged above (right bytes, a correct not-found) is accepted too
+        let mUp := rpcGetSignedVAA st.store (hasid = 1) ec addrC tc seq
+        let mDown := rpcGetSignedVAAAt (fun _ => false) st.store (hasid = 1) ec addrC tc seq
+        let agrees (m : Except RpcErr Bytes) : Bool :=
+          match m, res, val with
+          | .ok b, "ok", some b' => b == b'
+          | .error e, r, _ => errTag e == r
+          | _, _, _ => false
+        if down then
+          if agrees mDown then ({ st with nDown := st.nDown + 1 }, [s!"ok {cid}"])
+          else if agrees mUp then ({ st with nDownAnswered := st.nDownAnswered + 1 }, [s!"ok {cid}"])
+          else (st, [s!"diff {cid} rget with the store handle unavailable: model {match mDown with | .ok _ => "ok" | .error e => errTag e} impl {res}"])
+        else
+        match mUp, res, val with
         | .ok b, "ok", some b' => if b = b' then (st, [s!"ok {cid}"]) else (st, [s!"diff {cid} rget bytes differ"])
         | .error e, r, _ => if errTag e = r then ({ st with nErrBranch := st.nErrBranch + (if e = .notFound then 0 else 1) }, [s!"ok {cid}"]) else (st, [s!"diff {cid} rget: model {errTag e} impl {r}"])
         | .ok _, r, _ => (st, [s!"diff {cid} rget: model ok impl {r}"])
@@ -305,15 +346,33 @@ def stepLine (st : St) (line : String) : St × List String :=
                | q :: _ => [s!"spec {cid} rpc-batch-lost batch {ec}/{toHex (a.take 4)}../{tc} seqs={showNats seqs}: {shortId (idOf q)} was stored, the batch has no entry for it (stored and requested but not returned: {showNats lost})"]
                | [] => [])
           match sp with
-          | some s => (st, s :: fine)
+          | some s =>
+            let s := if kvNat rest "down" == some 1 then s ++ " - the store handle was unavailable during the call: failing it would have been acceptable, an OK answer has to be the stream's" else s
+            (st, s :: fine)
           | none =>
+            let st := if kvNat rest "down" == some 1 then { st with nDownAnswered := st.nDownAnswered + 1 } else st
             match m with
             | .ok l => if l = out then (st, [s!"ok {cid}"]) else (st, [s!"diff {cid} rbatch: model {showSeqOut l} impl {showSeqOut out}"])
             | .error e => (st, [s!"diff {cid} rbatch: model {errTag e} impl ok"])
       else
+        let down := kvNat rest "down" == some 1
         let inDom := !st.outOfDomain && 0 ≤ ec && ec < 65536 && 0 ≤ tc && tc < 65536 && seqs.length ≤ 20 &&
           (match decodeEmitterAddress addrC with | .ok _ => true | .error _ => false)
-        if inDom then (st, [s!"spec {cid} rpc-batch-error batch for a well-formed request ended with {res}"])
+        if down then
+          -- the handle was unavailable during the call: failing makes no statement about the stream (acceptable); the pinned
+          -- handler's answer is `rpcNonGovBatchAt (fun _ => false)`
+          match rpcNonGovBatchAt (fun _ => false) st.store ec addrC tc seqs with
+          | .error e => if errTag e = res then ({ st with nDown := st.nDown + 1 }, [s!"ok {cid}"]) else (st, [s!"diff {cid} rbatch with the store handle unavailable: model {errTag e} impl {res}"])
+          | .ok _ => (st, [s!"diff {cid} rbatch with the store handle unavailable: model ok impl {res}"])
+        else
+        if inDom then
+          -- an acknowledged VAA that was asked for and is not returned, also when the reason given is an error
+          let lost : List Nat := match decodeEmitterAddress addrC with
+            | .ok a => (seqs.filter fun q => (lastStored st.hist ⟨ec.toNat, a, tc.toNat, q⟩).isSome).eraseDups
+            | .error _ => []
+          (st, s!"spec {cid} rpc-batch-error batch for a well-formed request ended with {res}" ::
+            (if lost.isEmpty then [] else
+              [s!"spec {cid} rpc-batch-lost batch {ec}/../{tc} seqs={showNats seqs} ended with {res}: sequences {showNats lost} of that stream were stored (acknowledged) and requested, none of them is returned"]))
         else match m with
         | .error e => if errTag e = res then ({ st with nErrBranch := st.nErrBranch + 1 }, [s!"ok {cid}"]) else (st, [s!"diff {cid} rbatch: model {errTag e} impl {res}"])
         | .ok _ => (st, [s!"diff {cid} rbatch: model ok impl {res}"])
@@ -333,6 +392,10 @@ def stepLine (st : St) (line : String) : St × List String :=
           else match m with
             | .ok l => if l = out then (st, [s!"ok {cid}"]) else (st, [s!"diff {cid} rgov: model {showGov l} impl {showGov out}"])
             | .error e => (st, [s!"diff {cid} rgov: model {errTag e} impl ok"])
+      else if kvNat rest "down" == some 1 then
+        match rpcGovBatchAt false st.store st.govEc st.govAddr seqs with
+        | .error e => if errTag e = res then ({ st with nDown := st.nDown + 1 }, [s!"ok {cid}"]) else (st, [s!"diff {cid} rgov with the store handle unavailable: model {errTag e} impl {res}"])
+        | .ok _ => (st, [s!"diff {cid} rgov with the store handle unavailable: model ok impl {res}"])
       else if !st.outOfDomain && seqs.length ≤ 20 then
         (st, [s!"spec {cid} rpc-gov-error governance batch of {seqs.length} sequences on a store written only by StoreSignedVAA ended with {res}"])
       else
@@ -469,7 +532,8 @@ def step (st : St) (line : String) : St × List String :=
 def fin (st : St) : List String :=
   [s!"stat cases {st.n}", s!"stat puts {st.nPut}", s!"stat overwrites {st.nOverwrite}", s!"stat get_hits {st.nGetHit}",
    s!"stat get_misses {st.nGetMiss}", s!"stat gap_queries {st.nGap}", s!"stat gap_queries_with_lookalike_stream {st.nGapShadow}",
-   s!"stat gov_batches {st.nGov}", s!"stat rpc_calls {st.nRpc}", s!"stat error_branches {st.nErrBranch}"]
+   s!"stat gov_batches {st.nGov}", s!"stat rpc_calls {st.nRpc}", s!"stat error_branches {st.nErrBranch}",
+   s!"stat calls_with_store_unavailable_failed {st.nDown}", s!"stat calls_with_store_unavailable_answered {st.nDownAnswered}"]
 
 def run (h : IO.FS.Stream) : IO Unit := loop h ({} : St) step fin
 
